@@ -314,7 +314,11 @@ theorem sch_stepCreated (p : Pool) (t : Nat) (tk : PTask) : Sch p (p.stepCreated
     split
     · exact h0.trans (sch_afterWorker _ t _)
     · exact h0.trans (sch_afterWorker _ t _)
-    · exact h0.trans (sch_suspendTask _ t _)
+    · exact (h0.trans schMT).trans (sch_suspendTask _ t _)
+
+theorem sch_workerNext (p : Pool) (t : Nat) : Sch p (p.workerNext t) := by
+  unfold workerNext
+  exact ((sch_logEv p _).trans schMT).trans (sch_suspendTask _ t _)
 
 theorem sch_workerCancelled (p : Pool) (t : Nat) (tk : PTask) : Sch p (p.workerCancelled t tk) := by
   unfold workerCancelled
@@ -333,7 +337,9 @@ theorem sch_stepInWorker (p : Pool) (t : Nat) (tk : PTask) : Sch p (p.stepInWork
   · refine Sch.trans ?_ (sch_workerCancelled _ t tk)
     sch_mt
   · split
-    · exact sch_afterWorker p t _
+    · split
+      · exact sch_workerNext p t
+      · exact sch_afterWorker p t _
     · exact sch_afterWorker p t _
     · exact Sch.refl p
 
